@@ -68,8 +68,13 @@ inline bool ClauseMatch(const std::string & pat, const std::string & s)
 // Normalised form of a subscription / key pattern: absolute patterns lose their leading '/', relative ones get the implicit "*/*/" prefix
 inline std::string Normalise(const std::string & pat) {return ((!pat.empty())&&(pat[0] == '/')) ? pat.substr(1) : ("*/*/" + pat);}
 // path is an absolute node path like "/h1/3/a/b"
+inline size_t CountSeps(const std::string & s, size_t from) {size_t n = 0; for (size_t i=from; i<s.size(); i++) if (s[i] == '/') n++; return n;}
 inline bool PathMatch(const std::string & pat, const std::string & path)
 {
+   // (same verdict as the clause-by-clause comparison below, reached without allocating: a different number of clauses never matches.  The oracles ask this
+   //  for every node x every subscription after every command, which on a large tree was seconds of allocator time per server step)
+   if (path.empty()) return false;
+   {const bool abs = ((!pat.empty())&&(pat[0] == '/')); if (CountSeps(pat, abs ? 1 : 0) + (abs ? 0 : 2) != CountSeps(path, 1)) return false;}
    const std::vector<std::string> pc = SplitOn(Normalise(pat), '/'), sc = SplitOn(path.substr(1), '/');
    if (pc.size() != sc.size()) return false;
    for (size_t i=0; i<pc.size(); i++) if (!ClauseMatch(pc[i], sc[i])) return false;
@@ -79,6 +84,7 @@ inline bool PathMatch(const std::string & pat, const std::string & path)
 inline bool RelPathMatch(const std::string & sessionRoot, const std::string & pat, const std::string & path)
 {
    if (path.compare(0, sessionRoot.size()+1, sessionRoot + "/") != 0) return false;
+   if (CountSeps(pat, 0) != CountSeps(path, sessionRoot.size()+1)) return false;   // (a different number of clauses never matches; see PathMatch)
    const std::vector<std::string> pc = SplitOn(pat, '/'), sc = SplitOn(path.substr(sessionRoot.size()+1), '/');
    if (pc.size() != sc.size()) return false;
    for (size_t i=0; i<pc.size(); i++) if (!ClauseMatch(pc[i], sc[i])) return false;
